@@ -125,16 +125,16 @@ TEXTS["C09"] = {
 }
 TEXTS["C13"] = {
     "text": "The same logical resize or alpha operation is executed through plain typed images and through each compiled container pair "
-            "(10 source kinds x 7 destination kinds, typed and dynamic entry points) at random placements inside larger parents; the "
+            "(11 source kinds x 8 destination kinds incl. a user-defined view type that leaves the trait's provided methods at their defaults, typed and dynamic entry points) at random placements inside larger parents; the "
             "destination pixels must be bit-identical. Also under ASan.",
     "design_ref": "DESIGN.md section 2, C13",
-    "note": "19 of the 70 (source kind, destination kind) pairs are compiled (every source kind with a plain destination, a plain source "
+    "note": "22 of the 88 (source kind, destination kind) pairs are compiled (every source kind with a plain destination, a plain source "
             "with every destination kind, and the matching special pairs); the rest would multiply compile time without new code paths.",
     "technique": "runtime differential monitoring across container kinds and memory layouts",
 }
 TEXTS["C14"] = {
-    "text": "Exhaustive enumeration of every (start, size, parts) on every view size up to 12x12 (28x34 thorough) for seven view kinds and both "
-            "axes, with split-of-split: None exactly when the property says so; parts in order, sizes differing by at most one, each exposing "
+    "text": "Exhaustive enumeration of every (start, size, parts) on every view size up to 12x12 (34x34 thorough) for nine view kinds (the library's seven and a user-defined view / mutable view that use the "
+            "trait's default split implementations) and both axes, with split-of-split (read-only, and on mutable parts read-only and mutable): None exactly when the property says so; parts in order, sizes differing by at most one, each exposing "
             "exactly its band of identity tags; mutable parts write an index-dependent increment and the parent is read back: every band "
             "pixel incremented exactly once, nothing else changed.",
     "design_ref": "DESIGN.md section 2, C14",
